@@ -133,6 +133,7 @@ class Dm1:
         """
         self._pgn = j1939.ParameterGroupNumber.PGN.DM01
         self._lamp_status = {}
+        self._send_cookies = []
         self._dtc_dic_list = []
         self._data = []
         self._subscribers = []
@@ -169,10 +170,15 @@ class Dm1:
         :param int priority:
             priority of Dm1 message
         """
-        cookie = {'cb': callback,}
+        cookie = {'cb': callback, 'active': True}
+        self._send_cookies.append(cookie)
         self._ca.add_timer(delta_time=cycletime, callback=self._send, cookie=cookie)
 
     def stop_send(self, callback):
+        # a cycle whose data callback is running right now (in the job thread) must not send any more
+        for cookie in self._send_cookies:
+            cookie['active'] = False
+        self._send_cookies = []
         # the timer was registered with self._send (the user callback travels in the cookie)
         self._ca.remove_timer(self._send)
 
@@ -220,6 +226,9 @@ class Dm1:
 
         # get dm1 data
         self._lamp_status, self._dtc_dic_list = cookie['cb']()
+        if not cookie.get('active', True):
+            # stop_send was called while the data callback was running
+            return False
 
         # create payload - lamp status
         self._data = DtcLamp().get_data(self._lamp_status)
